@@ -222,6 +222,82 @@ def table_json(T):
     return [[frac(v) for v in row] for row in T]
 
 
+RET_STYLES = ('fresh', 'view', 'buffer', 'memo', 'libout')
+
+
+class VariantMetric:
+    """How a metric hands its result back (the VALUES are those of the base metric):
+    fresh  - a new array per call (fancy indexing / the kernel's own allocation)
+    view   - table metric only: a column VIEW of a Fortran-ordered float table precomputed per data set
+             (`tables` must survive every call byte for byte)
+    buffer - writes into ONE reused buffer per data-set length and returns it
+    memo   - memoising: the same stored array for the same (data set, point)
+    libout - the library's own `functools.partial(libdist.euclidean|manhattan, out=buf)`
+    `ret_dtype` float32: python variants return float32 arrays."""
+
+    def __init__(self, case, base):
+        self.case, self.base = case, base
+        self.style = case.get('ret', 'fresh')
+        self.dt = np.dtype(case.get('ret_dtype', 'float64'))
+        self.tables, self.bufs, self.memo, self.keep = {}, {}, {}, []
+        if self.style == 'libout':
+            from enspara.geometry.libdist import euclidean, manhattan
+            self.lib = euclidean if case['metric'] == 'euclidean' else manhattan
+
+    def __call__(self, X, y):
+        st = self.style
+        if st == 'fresh':
+            return np.asarray(self.base(X, y)).astype(self.dt)
+        if st == 'view':
+            key = id(X)
+            if key not in self.tables:
+                self.keep.append(X)
+                self.tables[key] = (X, self._table_for(X))
+            return self.tables[key][1][:, int(np.asarray(y)[0])]          # a view into the table
+        if st == 'buffer':
+            buf = self.bufs.setdefault(len(X), np.empty(len(X), dtype=self.dt))
+            buf[:] = self.base(X, y)
+            return buf
+        if st == 'libout':
+            buf = self.bufs.setdefault(len(X), np.empty(len(X), dtype=np.float64))
+            return self.lib(X, y, out=buf)
+        key = (id(X), np.asarray(y).tobytes())
+        if key not in self.memo:
+            self.keep.append(X)
+            self.memo[key] = np.asarray(self.base(X, y)).astype(self.dt)
+        return self.memo[key]
+
+    def _table_for(self, X):
+        D = np.array(self.case['D'], dtype=float)
+        if 'P' in self.case:
+            D = D + np.array(self.case['P'], dtype=float) * 2.0 ** -20
+        D = D * 2.0 ** self.case.get('scale_exp', 0)
+        return np.asfortranarray(D[np.asarray(X)[:, 0].astype(int), :].astype(self.dt))
+
+    def intact(self):
+        """every table the metric handed out views of still holds the metric's values"""
+        return all(t.tobytes() == self._table_for(X).tobytes() for X, t in self.tables.values())
+
+    def through(self, T):
+        """the values the code sees: the base table through the return dtype"""
+        return np.asarray(T).astype(self.dt).astype(np.float64)
+
+
+def ret_tags(case, prefix):
+    if 'ret' not in case and 'ret_dtype' not in case:
+        return []
+    return [prefix + ':returns=' + case.get('ret', 'fresh'), prefix + ':ret_dtype=' + case.get('ret_dtype', 'float64')]
+
+
+def partial_libout(case, n_out):
+    """the library's documented in-place form, bound with functools.partial"""
+    from functools import partial
+    from enspara.geometry.libdist import euclidean, manhattan
+    lib = euclidean if case['metric'] == 'euclidean' else manhattan
+    return partial(lib, out=np.empty(n_out, dtype=np.float64))
+
+
+
 def nearest_ok(O, a, d, scale=1.0):
     """the property's words: every frame has a center at minimal distance and reports exactly it"""
     n, k = O.shape
@@ -608,6 +684,58 @@ def gen_assign_md(rng):
             'coords_seed': int(rng.integers(0, 2 ** 31 - 1))}
 
 
+def add_return_style(rng, case, allow_libout=True):
+    """how the metric hands its result back (see VariantMetric)"""
+    if case['metric'] == 'table':
+        case['ret'] = ['view', 'view', 'buffer', 'memo', 'fresh'][int(rng.integers(0, 5))]
+        case['ret_dtype'] = 'float32' if rng.random() < 0.35 else 'float64'
+    else:
+        styles = ['buffer', 'memo'] + (['libout', 'libout'] if allow_libout else [])
+        case['ret'] = styles[int(rng.integers(0, len(styles)))]
+        if case['ret'] == 'libout' and rng.random() < 0.6:
+            case['partial'] = True
+    case['family'] = 'metric-return-style'
+    return case
+
+
+def gen_assign_ret(rng):
+    case = gen_assign(rng)
+    while len(case['C']) < 2 or len(case['X']) < 1:
+        case = gen_assign(rng)
+    return add_return_style(rng, case)
+
+
+def gen_predict_ret(rng):
+    case = gen_predict(rng)
+    case['est'] = 'KCenters'
+    case.pop('radius', None)
+    return add_return_style(rng, case, allow_libout=True)
+
+
+def gen_warm(rng):
+    case = gen_assign(rng)
+    while len(case['C']) < 1 or len(case['X']) < 1:
+        case = gen_assign(rng)
+    case['kind'] = 'warm'
+    case.pop('wrapper', None)
+    if rng.random() < 0.75:
+        add_return_style(rng, case)
+    else:
+        case['family'] = 'warm-start'
+    return case
+
+
+def gen_partition_empty_mismatch(rng):
+    """empty flat arrays with lengths that do not sum to 0 (DataInvalid), equal and unequal"""
+    T = int(rng.integers(1, 4))
+    lens = [int(v) for v in rng.integers(0, 3, size=T)]
+    if sum(lens) == 0:
+        lens[int(rng.integers(0, T))] = int(rng.integers(1, 3))
+    return {'kind': 'partition', 'family': 'empty-data-with-lengths', 'lens': lens, 'lens_how': 'empty-mismatch',
+            'a': [], 'd': [], 'ci': [], 'lens_type': ['list', 'int64'][int(rng.integers(0, 2))], 'ci_type': 'list',
+            'valid': False, 'invalid': 'sum-mismatch'}
+
+
 def blind_spot_cases(ctx):
     rng = ctx.rng
     q = ctx.n
@@ -660,6 +788,12 @@ def blind_spot_cases(ctx):
     for _ in range(q(20, 300)):
         out += gen_batches_boundaries(rng)
     out += [gen_reassign_boundary(rng) for _ in range(q(3, 60))]
+    # 5b. metrics that keep or reuse the array they return (views of a table, one reused buffer,
+    #     partial(libdist.euclidean, out=buf), memoisation, float32 results) - same objects called twice
+    out += [gen_assign_ret(rng) for _ in range(q(500, 5000))]
+    out += [gen_predict_ret(rng) for _ in range(q(150, 1500))]
+    out += [gen_warm(rng) for _ in range(q(200, 2000))]
+    out += [gen_partition_empty_mismatch(rng) for _ in range(q(20, 100))]
     return out
 
 
@@ -669,16 +803,23 @@ def blind_spot_cases(ctx):
 
 def do_assign(ctx, case):
     from enspara.cluster.util import assign_to_nearest_center
-    metric, oracle = make_metric(case)
+    base_metric, oracle = make_metric(case)
     n, k = len(case['X']), len(case['C'])
     X = data_array(case['X'], case)
     C = data_array(case['C'], case)
     centers = wrap_centers(C, case['wrapper'])
     perframe = case['wrapper'] == 'xyz' and k > n
-    if case.get('kwargs'):
-        r = call_real(assign_to_nearest_center, distance_method=metric, cluster_centers=centers, trajectory=X)
-    else:
-        r = call_real(assign_to_nearest_center, X, centers, metric)
+    vm = VariantMetric(case, base_metric)
+    metric = vm
+    if case.get('ret') == 'libout' and case.get('partial'):
+        metric = partial_libout(case, k if perframe else n)
+
+    def real_call():
+        if case.get('kwargs'):
+            return call_real(assign_to_nearest_center, distance_method=metric, cluster_centers=centers,
+                             trajectory=X)
+        return call_real(assign_to_nearest_center, X, centers, metric)
+    r = real_call()
     if r[0] == 'error':
         ctx.case(case, nontrivial=n >= 1 and k >= 2, tags=['assign', 'assign:raised'])
         ctx.violation('assign_to_nearest_center raised %s (n=%d frames, k=%d centers)' % (r[2], n, k), case)
@@ -688,10 +829,12 @@ def do_assign(ctx, case):
     except Exception:  # noqa
         ctx.violation('assign_to_nearest_center did not return (assignments, distances)', case)
         return None
-    T, O = tables(metric, oracle, X, C, perframe)
+    T, O = tables(base_metric, oracle, X, C, perframe)
+    T, O = vm.through(T), vm.through(O)
     ties = bool(n and k and ((O == O.min(axis=1, keepdims=True)).sum(axis=1) > 1).any())
     ctx.case(case, nontrivial=n >= 1 and k >= 2,
-             tags=['assign', 'assign:branch=' + ('perframe' if perframe else 'sweep'),
+             tags=['assign', 'assign:branch=' + ('perframe' if perframe else 'sweep')] + ret_tags(case, 'assign') +
+                  [
                    'assign:' + ('k<n' if k < n else 'k=n' if k == n else 'k>n'),
                    'assign:metric=' + case['metric'], 'assign:centers=' + case['wrapper']] +
                   (['assign:ties'] if ties else []) + (['assign:k=0'] if k == 0 else []) +
@@ -711,12 +854,32 @@ def do_assign(ctx, case):
         if bad:
             # an asymmetric table read in the other orientation = the other branch was taken
             if not case['symmetric']:
-                T2, O2 = tables(metric, oracle, X, C, not perframe)
-                if nearest_ok(O2, a, d, case_scale(case)) is None:
+                T2, O2 = tables(base_metric, oracle, X, C, not perframe)
+                if nearest_ok(vm.through(O2), a, d, case_scale(case)) is None:
                     ctx.disagreement('assign_to_nearest_center took the other branch (k=%d, n=%d, centers=%s)'
                                      % (k, n, case['wrapper']), case)
                     return None
             ctx.violation('assign_to_nearest_center: ' + bad, case)
+            return None
+    if 'ret' in case and k >= 1:
+        # the metric's own storage must survive, and the same call on the same objects must give the
+        # same (correct) answer again
+        what = None if vm.intact() else 'the distance table the metric returns views of was overwritten'
+        r2 = real_call()
+        if what is None and not vm.intact():
+            what = 'the distance table the metric returns views of was overwritten'
+        if what is None:
+            if r2[0] == 'error':
+                what = 'a second call on the same objects raised %s' % r2[2]
+            else:
+                a2, d2 = r2[1]
+                bad2 = nearest_ok(O, a2, d2, case_scale(case))
+                if bad2:
+                    what = 'second call on the same objects (metric returns=%s): %s' % (case['ret'], bad2)
+                elif not (np.array_equal(a2, a) and np.array_equal(d2, d)):
+                    what = 'a second call on the same objects gives a different result'
+        if what:
+            ctx.violation('assign_to_nearest_center: ' + what, case)
             return None
     if case.get('model_skip'):
         ctx.tag('model-skipped-assign-k%d' % k)
@@ -732,11 +895,11 @@ def do_assign(ctx, case):
     return req, compare
 
 
-def fit_estimator(case):
+def fit_estimator(case, metric=None):
     from enspara.cluster import KCenters, KHybrid, KMedoids
     X = data_array(case['X'], case)
     np.random.seed(case['seed'])
-    m = metric_arg(case)
+    m = metric_arg(case) if metric is None else metric
     if case['est'] == 'KCenters':
         if 'radius' in case:
             est = KCenters(metric=m, n_clusters=case['k'], cluster_radius=case['radius'])
@@ -755,9 +918,10 @@ def fit_estimator(case):
 def do_predict(ctx, case):
     from enspara.cluster.util import ClusterResult
     metric, oracle = make_metric(case)
+    vm = VariantMetric(case, metric) if 'ret' in case else None
     try:
         with _Quiet():
-            est = fit_estimator(case)
+            est = fit_estimator(case, vm)
         centers = est.centers_
         k = len(centers)
     except Exception as e:  # fitting is C01/C02/C09's business
@@ -773,8 +937,11 @@ def do_predict(ctx, case):
     res = r[1]
     C = [np.asarray(c) for c in centers]
     T, O = tables(metric, oracle, Y, C, False)
+    if vm is not None:
+        T, O = vm.through(T), vm.through(O)
     ctx.case(case, nontrivial=m >= 1 and k >= 2,
-             tags=['predict', 'predict:' + case['est'], 'predict:metric=' + case['metric'],
+             tags=['predict', 'predict:' + case['est'], 'predict:metric=' + case['metric']] +
+                  ret_tags(case, 'predict') + [
                    'predict:' + ('m<k' if m < k else 'm=k' if m == k else 'm>k')] + fam(case) +
                   (['predict:k>255'] if k > 255 else []))
     if not isinstance(res, ClusterResult):
@@ -796,6 +963,25 @@ def do_predict(ctx, case):
     if bad:
         ctx.violation('%s.predict center_indices: %s' % (case['est'], bad), case)
         return None
+    if vm is not None and k >= 1:
+        what = None if vm.intact() else 'the distance table the metric returns views of was overwritten'
+        r2 = call_real(est.predict, Y)
+        if what is None and not vm.intact():
+            what = 'the distance table the metric returns views of was overwritten'
+        if what is None:
+            if r2[0] == 'error':
+                what = 'a second predict on the same data raised %s' % r2[2]
+            else:
+                a2, d2 = np.asarray(r2[1].assignments), np.asarray(r2[1].distances)
+                bad2 = nearest_ok(O, a2, d2, case_scale(case))
+                if bad2:
+                    what = 'second predict on the same data (metric returns=%s): %s' % (case['ret'], bad2)
+                elif not (np.array_equal(a2, a) and np.array_equal(d2, d)
+                          and np.array_equal(np.asarray(r2[1].center_indices), ci)):
+                    what = 'a second predict on the same data gives a different result'
+        if what:
+            ctx.violation('%s.predict: %s' % (case['est'], what), case)
+            return None
     req = {'op': 'C10.predict', 'n': m, 'k': k, 'has_xyz': False, 'table': table_json(T)}
 
     def compare(r):
@@ -1292,7 +1478,53 @@ def do_assign_md(ctx, case):
     return req, compare
 
 
-DO = {'assign_md': do_assign_md, 'assign': do_assign, 'predict': do_predict, 'find': do_find, 'partition': do_partition,
+def do_warm(ctx, case):
+    """kcenters(X, metric, n_clusters=1, init_centers=C): the warm start is assign_to_nearest_center +
+    find_cluster_centers on the given centers and no further iteration - the pipeline the clustering
+    code itself runs"""
+    from enspara.cluster.kcenters import kcenters
+    base_metric, oracle = make_metric(case)
+    vm = VariantMetric(case, base_metric)
+    X = data_array(case['X'], case)
+    C = data_array(case['C'], case)
+    n, k = len(X), len(C)
+    ctx.case(case, nontrivial=n >= 1 and k >= 2,
+             tags=['warm', 'warm:metric=' + case['metric']] + ret_tags(case, 'warm') + fam(case))
+    T, O = tables(base_metric, oracle, X, C, False)
+    T, O = vm.through(T), vm.through(O)
+    results = []
+    for rep in range(2):
+        r = call_real(kcenters, X, vm, n_clusters=1, init_centers=[c for c in C])
+        if r[0] == 'error':
+            ctx.violation('kcenters warm start raised %s' % r[2], case)
+            return None
+        res = r[1]
+        a, d, ci = np.asarray(res.assignments), np.asarray(res.distances), np.asarray(res.center_indices)
+        bad = nearest_ok(O, a, d, case_scale(case)) or centers_ok(a, d, ci)
+        if bad is None and not vm.intact():
+            bad = 'the distance table the metric returns views of was overwritten'
+        if bad:
+            ctx.violation('kcenters warm start (assign + find centers, call %d, metric returns=%s): %s'
+                          % (rep + 1, case.get('ret', 'fresh'), bad), case)
+            return None
+        results.append((a, d, ci))
+    if not all(np.array_equal(x, y) for x, y in zip(results[0], results[1])):
+        ctx.violation('kcenters warm start: a second call on the same objects gives a different result', case)
+        return None
+    a, d, ci = results[0]
+    req = {'op': 'C10.predict', 'n': n, 'k': k, 'has_xyz': False, 'table': table_json(T)}
+
+    def compare(r):
+        ok = 'ok' in r and r['ok']['labels'] == ints(a) and r['ok']['centers'] == ints(ci) and \
+            all(erat_eq(mm, x) for mm, x in zip(r['ok']['dists'], d))
+        if not ok:
+            ctx.disagreement('Model.Assign.predict vs kcenters warm start',
+                             dict(case, model=r, impl={'labels': ints(a), 'centers': ints(ci),
+                                                       'dists': [frac(x) for x in d]}))
+    return req, compare
+
+
+DO = {'warm': do_warm, 'assign_md': do_assign_md, 'assign': do_assign, 'predict': do_predict, 'find': do_find, 'partition': do_partition,
       'plist': do_plist, 'pidx': do_pidx, 'batches': do_batches, 'reassign': do_reassign}
 
 
